@@ -37,6 +37,10 @@ def _name_list(fn, e):
     if isinstance(e, ast.Call) and isinstance(e.func, ast.Name) and e.func.id in ("sorted", "reversed", "set", "frozenset") and e.args:
         elt, it, how = _name_list(fn, e.args[0])
         return elt, it, f"{how}, then re-ordered by {e.func.id}()"
+    if isinstance(e, (ast.GeneratorExp, ast.ListComp)) and len(e.generators) == 1 and e.generators[0].ifs and isinstance(e.generators[0].target, ast.Name):
+        g = e.generators[0]
+        cond = " and ".join(unparse(c) for c in g.ifs)
+        return unparse(e.elt).replace(g.target.id, "_SRC"), iter_text(g.iter), f"comprehension, filtered by `{cond}`"
     if isinstance(e, ast.GeneratorExp) and len(e.generators) == 1 and not e.generators[0].ifs and isinstance(e.generators[0].target, ast.Name):
         g = e.generators[0]
         return unparse(e.elt).replace(g.target.id, "_SRC"), iter_text(g.iter), "generator"
@@ -51,6 +55,9 @@ def _name_list(fn, e):
             loop = enclosing(apps[0], ast.For)
             if loop is not None and isinstance(loop.target, ast.Name) and parent(stmt_of(apps[0])) is loop:
                 return norm(apps[0].args[0], loop.target.id), iter_text(loop.iter), "loop + append"
+            if loop is not None and isinstance(loop.target, ast.Name):
+                gs = [t if pol else f"not ({t})" for t, pol in guards_of(apps[0], fn, include_exits=True)]
+                return norm(apps[0].args[0], loop.target.id), iter_text(loop.iter), f"loop + append, filtered by `{' and '.join(gs)}`"
         return None, "", "list built in an unrecognised way"
     if isinstance(e, ast.ListComp) and len(e.generators) == 1 and not e.generators[0].ifs and isinstance(e.generators[0].target, ast.Name):
         g = e.generators[0]
@@ -85,9 +92,11 @@ def rule_submodule_contract(ctx, rep: Report, rid="Y2"):
                   and len(st.targets[0].elts) == 2 and isinstance(st.targets[0].elts[1], ast.Starred) and isinstance(st.targets[0].elts[1].value, ast.Name)
                   and unparse(st.value) == srcs}
     it_ok = it_txt in (f"{srcs}[1:]", f"list({srcs}[1:])", f"tuple({srcs}[1:])") or (popped and it_txt == srcs) or it_txt in rest_names
-    rep.add(rid, "main file:one initialiser per additional file, in order", it_ok and "re-ordered" not in how,
-            f"names computed over `{it_txt}` ({how}): the initialisers must be declared and called in the order the files were given - pybind11 "
-            f"registration is order-dependent (a base class before the classes derived from it)", f"{ci.mod.rel}:{wrap.lineno}")
+    rep.add(rid, "main file:one initialiser per additional file, in order", it_ok and "re-ordered" not in how and "filtered" not in how,
+            f"names computed over `{it_txt}` ({how}): one initialiser has to be declared and called for *every* additional file, in the order the files "
+            f"were given - a file that is left out (by its suffix, its content, ...) is still wrapped as a submodule, its initialiser is defined but never "
+            f"called, and its classes are missing from the imported module; pybind11 registration is order-dependent (a base class before the classes "
+            f"derived from it)", f"{ci.mod.rel}:{wrap.lineno}")
     rep.add(rid, "main file:the submodule list reaches wrap_file", names_e is not None and elt_norm is not None,
             f"submodules={unparse(names_e) if names_e is not None else None}", f"{ci.mod.rel}:{wrap.lineno}")
     # 1b. what a file contributes besides the module definition does not depend on whether it is the main file:
